@@ -54,6 +54,8 @@ def gen_cases(ctx, n):
             d = A.mutate_archive(r, d); kind = "mutated"
         elif k < 0.35:
             d = A.structured_archive(r); kind = "structured"
+        elif k < 0.45:
+            d = A.mac_many(r); kind = "mac-short"
         toks = A.legal_history(r, maxentries=8, extract_fail=0.15)
         # make extraction frequent: it is what creates fake directories and deferred symlinks
         toks = [("x1" if (t == "c" and r.random() < 0.5) else t) for t in toks]
